@@ -3,7 +3,7 @@ import ast
 
 from ..model import AnalysisError, unparse, walk_local
 from ..paths import Evaluator, is_c, show, C, S, NONE, subterms
-from ..indexclass import ElemEval, Pos, classes, Undecided
+from ..indexclass import ElemEval, Pos, classes, Undecided, spec_bin
 from .common import mk_algebra, trace_tail
 from . import l1
 from .c10 import _find_digitize, _strip_column
@@ -19,7 +19,7 @@ EXPLANATION = (
     "k = 1..nbins, is selected by exactly one loop index and written to row k-1. L1: library attributes on these "
     "paths resolve. Not decided: interpolation error for non-linear profiles.")
 RULE_TEXT = "one obligation per routine clause; the bin-cover rule enumerates nbins in {2,3,5} x all classes"
-FLOORS = {'C14.R1': 2, 'C14.R2': 2, 'C14.R3': 3, 'C14.R4': 1}
+FLOORS = {'C14.R1': 3, 'C14.R2': 2, 'C14.R3': 3, 'C14.R4': 2}
 PINNED_EXPECT = [('C14.R4', 'emd.cycles.bin_by_phase', 'every allocated phase bin'),
                  ('L1', 'emd.support.ensure_equal_dims', 'numpy.alltrue')]
 
@@ -86,6 +86,23 @@ def rule_stat(ctx, rid):
         ok_idx = any(t[0] == 'sub' and t[2] in lookups for t in subterms(val))
         if not ok_idx:
             bad = 'the values are not indexed by the label lookup'
+    # every way of returning must go through that per-label loop: a shortcut that fills the result differently
+    # (vectorised fast path, early return) is not "the function applied to exactly the samples of each label"
+    c0 = 'every return path delivers the slot-by-slot filled result'
+    short = None
+    nret = 0
+    for e in exits:
+        if e.kind != 'return':
+            continue
+        nret += 1
+        v = e.value
+        if not (v[0] == 's' and v[1].startswith('out@F')):
+            short = (e, 'a path returns %s without the per-label loop (conditions: %s)'
+                     % (show(v)[:50], '; '.join('%s=%s' % (show(cn)[:50], t) for cn, t, _ in e.state.conds[-3:])))
+    if short:
+        ctx.violation(rid, fi, c0, short[1], node=short[0].node, path=trace_tail(short[0].state, 6))
+    elif nret:
+        ctx.passed(rid, fi, c0, '%d return paths' % nret)
     if bad:
         ctx.violation(rid, fi, c1, bad)
     elif n == 0:
@@ -256,7 +273,8 @@ def rule_bin_cover(ctx, rid):
                         r = el.ev(rowt)
                         hits.append(r)
                         rows_written.add(r)
-                want = [p.k - 1] if p.kind == 'in' else ([0] if p.kind == 'at_first' else [])
+                sb = spec_bin(p, E)
+                want = [sb] if sb is not None else []
                 if hits != want:
                     problem = ('nbins=%d: phase class %s is %s, expected %s'
                                % (nb, p, 'averaged into row %s' % hits if hits else 'never averaged (row stays NaN)',
@@ -271,3 +289,19 @@ def rule_bin_cover(ctx, rid):
         ctx.violation(rid, fi, c, problem, node=ls.node, expected='loop index covers 1..nbins', found=show(it))
     else:
         ctx.passed(rid, fi, c, 'nbins in {2,3,5}, all classes', node=ls.node)
+    # without weights, every iteration of the bin loop must write the mean: a path through the body that skips the
+    # store leaves a bin that contains samples unfilled
+    c2 = 'every iteration of the bin loop writes the bin mean (no skipping path, unweighted case)'
+    skips = []
+    for kind, b in ls.body_states:
+        wrote = any(eff[0] == 'setitem' and eff[5] == 'avg' for eff in b.effects)
+        if not wrote:
+            conds = [(cn, t) for cn, t, _ in b.conds if ls.var in set(subterms(cn))]
+            skips.append((b, conds))
+    if skips:
+        b, conds = skips[0]
+        ctx.violation(rid, fi, c2, 'a path through the loop body leaves the bin unwritten under %s: bins that contain '
+                      'samples stay NaN' % ('; '.join('%s == %s' % (show(cn)[:60], t) for cn, t in conds) or 'some condition'),
+                      node=ls.node, path=trace_tail(b, 6))
+    else:
+        ctx.passed(rid, fi, c2, '%d body paths, all writing' % len(ls.body_states), node=ls.node)
